@@ -37,6 +37,28 @@ impl embedded_io::Read for EioSlice<'_> {
     }
 }
 
+/// a reader that hands out at most `k` bytes per call (short reads are legal for both Read traits)
+pub struct Trickle<'a>(pub &'a [u8], pub usize);
+impl std::io::Read for Trickle<'_> {
+    fn read(&mut self, buf: &mut [u8]) -> std::io::Result<usize> {
+        let n = buf.len().min(self.0.len()).min(self.1);
+        buf[..n].copy_from_slice(&self.0[..n]);
+        self.0 = &self.0[n..];
+        Ok(n)
+    }
+}
+impl embedded_io::ErrorType for Trickle<'_> {
+    type Error = embedded_io::ErrorKind;
+}
+impl embedded_io::Read for Trickle<'_> {
+    fn read(&mut self, buf: &mut [u8]) -> Result<usize, Self::Error> {
+        let n = buf.len().min(self.0.len()).min(self.1);
+        buf[..n].copy_from_slice(&self.0[..n]);
+        self.0 = &self.0[n..];
+        Ok(n)
+    }
+}
+
 pub fn shapes_for(ctx: &Ctx, k_quick: usize, k_thorough: usize) -> (Vec<Shape>, usize) {
     let k = if ctx.quick() { k_quick } else { k_thorough };
     let en = ShapeEnum::new(k, 3);
@@ -138,6 +160,21 @@ fn check_decoders(v: &Val, e: &[u8], need_scratch: usize) -> Result<(), String> 
                 }
             }
             other => return Err(format!("from_eio: {:?}", other.map(|x| x.0))),
+        }
+        // the same through readers that deliver the stream in short pieces (1 or 3 bytes per call)
+        if sfx.len() == 2 {
+            for k in [1usize, 3] {
+                let mut scratch = vec![0u8; need_scratch + 4];
+                match postcard::from_io::<Dyn, _>((Trickle(&input[..], k), &mut scratch[..])) {
+                    Ok((Dyn(got), (rest, _scr))) if &got == v && rest.0.len() == sfx.len() => {}
+                    other => return Err(format!("from_io over a reader delivering {k} byte(s) per call: {:?}", other.map(|x| (x.0, x.1 .0 .0.len())))),
+                }
+                let mut scratch = vec![0u8; need_scratch + 4];
+                match postcard::from_eio::<Dyn, _>((Trickle(&input[..], k), &mut scratch[..])) {
+                    Ok((Dyn(got), (rest, _scr))) if &got == v && rest.0.len() == sfx.len() => {}
+                    other => return Err(format!("from_eio over a reader delivering {k} byte(s) per call: {:?}", other.map(|x| (x.0, x.1 .0 .0.len())))),
+                }
+            }
         }
     }
     Ok(())
